@@ -61,4 +61,24 @@ def build(tier, seed):
         k.bounds = ['two pre-existing items']
         return k
     ks.append(kernel_or_error('helper_prologue', helper))
+    def opacity():
+        G = os.path.dirname(os.path.dirname(os.path.abspath(__file__)))
+        impl_id = extract_from('ir/item.rs', r'^impl<T> IsOpaque for T$')
+        impl_item = extract_from('ir/item.rs', r'^impl IsOpaque for Item \{')
+        impl_type = extract_from('ir/ty.rs', r'^impl IsOpaque for Type \{')
+        impl_comp = extract_from('ir/comp.rs', r'^impl IsOpaque for CompInfo \{')
+        h = open(os.path.join(G, 'harness', 'c10_opacity.rs')).read()
+        h = h.replace('/*IMPL_ID*/', impl_id).replace('/*IMPL_ITEM*/', impl_item).replace('/*IMPL_TYPE*/', impl_type).replace('/*IMPL_COMP*/', impl_comp)
+        names = ['Opaque', 'Int', 'Alias', 'Pointer', 'ResolvedTypeRef', 'TemplateInstantiation', 'Comp']
+        cases = [(n, i, k0) for i, n in enumerate(names) for k0 in ((False, True) if n in ('ResolvedTypeRef', 'TemplateInstantiation', 'Alias') else (False,))]
+        gen = ['#[kani::proof] #[kani::unwind(2)] fn opacity_%s_%d() { case(%d, %s) }' % (n, k0, i, 'true' if k0 else 'false') for n, i, k0 in cases]
+        k = Kernel(name='opacity')
+        k.files = {'src/lib.rs': h.replace('/*GENERATED*/', '\n    '.join(gen))}
+        k.harnesses = [H('opacity_%s_%d' % (n, k0), timeout=600, desc='Item::is_opaque for a %s item%s: annotation, --opaque-type, or unrepresentable structure; exactly' % (n, ' referring to a TypeKind::Opaque item' if k0 else ''), sample={'X_kind': n, 'target_is_opaque_kind': k0}, may_unsat=('transparent',) if (n == 'Opaque' or (k0 and n != 'Alias')) else ()) for n, i, k0 in cases]
+        k.encoded = [enc('ir/item.rs', 'impl IsOpaque for T (ids)', impl_id), enc('ir/item.rs', 'impl IsOpaque for Item', impl_item), enc('ir/ty.rs', 'impl IsOpaque for Type', impl_type), enc('ir/comp.rs', 'impl IsOpaque for CompInfo', impl_comp)]
+        k.stubs = ['three-item mini IR with the field / method names the four impls use', 'impl IsOpaque for TemplateInstantiation: stub (definition opaque, or matched by name); the real one builds path strings',
+                   'opaque_by_name(path_for_allowlisting): symbolic flag per item']
+        k.bounds = ['7 item kinds; bit-field width <= 1024, declared type size 1..8']
+        return k
+    ks.append(kernel_or_error('opacity', opacity))
     return ks
